@@ -134,7 +134,16 @@ type Layer struct {
 	K   string `json:"k"`
 	Cfg int    `json:"cfg"`
 	C   []int  `json:"c"`
+	// several channels on the SAME mux instance: ids, index (1-based) of the channel the stack continues on,
+	// order of first use (1-based indices), kind of first use ("mtu", "tell", "ask")
+	Chans [][]int `json:"chans"`
+	Own   int     `json:"own"`
+	Ord   []int   `json:"ord"`
+	Use   string  `json:"use"`
 }
+
+// firstUse is the payload of the first-use Tell / Ask on the channels of a multi-channel mux
+var firstUse = []byte("FU")
 
 type StackCase struct {
 	ID     int     `json:"id"`
@@ -172,6 +181,42 @@ func testKey(i int) x509.PrivateKey {
 		panic(err)
 	}
 	return pk
+}
+
+// wrapChans opens every channel of L.Chans on ONE mux over n and returns them in the order of L.Chans
+func wrapChans(n node, L Layer) ([]node, error) {
+	var out []node
+	switch L.K {
+	case "str":
+		if n.ask != nil {
+			m := p2pmux.NewStringSecureAskMux[Any, any](n.ask)
+			for _, c := range L.Chans {
+				s := m.Open(string(toBytes(c)))
+				out = append(out, node{sw: s, ask: s})
+			}
+		} else {
+			m := p2pmux.NewStringSecureMux[Any, any](n.sw)
+			for _, c := range L.Chans {
+				out = append(out, node{sw: m.Open(string(toBytes(c)))})
+			}
+		}
+	case "var":
+		if n.ask != nil {
+			m := p2pmux.NewVarintSecureAskMux[Any, any](n.ask)
+			for _, c := range L.Chans {
+				s := m.Open(bitsToU64(c))
+				out = append(out, node{sw: s, ask: s})
+			}
+		} else {
+			m := p2pmux.NewVarintSecureMux[Any, any](n.sw)
+			for _, c := range L.Chans {
+				out = append(out, node{sw: m.Open(bitsToU64(c))})
+			}
+		}
+	default:
+		return nil, fmt.Errorf("several channels on one mux: kind %q not supported", L.K)
+	}
+	return out, nil
 }
 
 // wrap puts layer L on top of n; idx tells the two endpoints apart (keys)
@@ -278,25 +323,65 @@ func build(sc StackCase, sizeCap int) (*stack, error) {
 	default:
 		return nil, fmt.Errorf("unknown base %q", sc.Base)
 	}
+	ctx, cancel := context.WithCancel(context.Background())
+	st.cancel = cancel
+	var firstUses []func()
 	for i := len(sc.Layers) - 1; i >= 0; i-- {
+		L := sc.Layers[i]
 		var err error
-		if a, err = wrap(a, sc.Layers[i], 0); err != nil {
-			return nil, err
-		}
-		if b, err = wrap(b, sc.Layers[i], 1); err != nil {
-			return nil, err
+		if len(L.Chans) > 0 {
+			// several channels on the same mux: the stack continues on channel Own; the others get receivers at b
+			// that report whatever reaches them (nothing told on the own channel may), and all channels of a are
+			// used for the first time in the generated order once both endpoints are complete
+			ca, err := wrapChans(a, L)
+			if err != nil {
+				return nil, err
+			}
+			cb, err := wrapChans(b, L)
+			if err != nil {
+				return nil, err
+			}
+			for j := range cb {
+				if j != L.Own-1 {
+					st.siblingReceivers(ctx, cb[j])
+				}
+			}
+			for _, j := range L.Ord {
+				na, nb := ca[j-1], cb[j-1]
+				use := L.Use
+				firstUses = append(firstUses, func() {
+					c2, cf := context.WithTimeout(ctx, 2*time.Second)
+					defer cf()
+					switch {
+					case use == "tell":
+						na.sw.Tell(c2, nb.sw.LocalAddrs()[0], p2p.IOVec{firstUse})
+					case use == "ask" && na.ask != nil:
+						na.ask.Ask(c2, make([]byte, 8), nb.sw.LocalAddrs()[0], p2p.IOVec{firstUse})
+					default:
+						na.sw.MTU()
+					}
+				})
+			}
+			a, b = ca[L.Own-1], cb[L.Own-1]
+		} else {
+			if a, err = wrap(a, L, 0); err != nil {
+				return nil, err
+			}
+			if b, err = wrap(b, L, 1); err != nil {
+				return nil, err
+			}
 		}
 		la, lb := a, b
 		st.closers = append(st.closers, func() { la.sw.Close(); lb.sw.Close() })
 	}
 	st.a, st.b = a, b
-	ctx, cancel := context.WithCancel(context.Background())
-	st.cancel = cancel
 	for i := 0; i < 2; i++ {
 		go func() {
 			for {
 				if err := b.sw.Receive(ctx, func(m p2p.Message[Any]) {
-					st.got <- append([]byte{}, m.Payload...)
+					if !bytes.Equal(m.Payload, firstUse) {
+						st.got <- append([]byte{}, m.Payload...)
+					}
 				}); err != nil {
 					return
 				}
@@ -309,7 +394,9 @@ func build(sc StackCase, sizeCap int) (*stack, error) {
 		go func() {
 			for {
 				if err := b.ask.ServeAsk(ctx, func(ctx context.Context, resp []byte, m p2p.Message[Any]) int {
-					st.asked <- append([]byte{}, m.Payload...)
+					if !bytes.Equal(m.Payload, firstUse) {
+						st.asked <- append([]byte{}, m.Payload...)
+					}
 					return copy(resp, answer(m.Payload))
 				}); err != nil {
 					return
@@ -317,7 +404,46 @@ func build(sc StackCase, sizeCap int) (*stack, error) {
 			}
 		}()
 	}
+	// first uses, in the generated order; what they send is recognised and ignored by every receiver
+	for _, f := range firstUses {
+		f()
+	}
+	if len(firstUses) > 0 {
+		time.Sleep(3 * time.Millisecond)
+	}
 	return st, nil
+}
+
+// siblingReceivers serves a channel that is NOT the one the stack continues on: anything but a first-use
+// payload that reaches it was told / asked on another channel (C15 isolation) and is reported as a foreign
+// delivery of the current exchange.
+func (st *stack) siblingReceivers(ctx context.Context, n node) {
+	mark := func(p []byte) []byte { return append([]byte("SIBLING-CHANNEL:"), p...) }
+	go func() {
+		for {
+			if err := n.sw.Receive(ctx, func(m p2p.Message[Any]) {
+				if !bytes.Equal(m.Payload, firstUse) {
+					st.got <- mark(m.Payload)
+				}
+			}); err != nil {
+				return
+			}
+		}
+	}()
+	if n.ask != nil {
+		go func() {
+			for {
+				if err := n.ask.ServeAsk(ctx, func(ctx context.Context, resp []byte, m p2p.Message[Any]) int {
+					if !bytes.Equal(m.Payload, firstUse) {
+						st.asked <- mark(m.Payload)
+					}
+					return copy(resp, answer(m.Payload))
+				}); err != nil {
+					return
+				}
+			}
+		}()
+	}
 }
 
 func errClass(err error) string {
